@@ -57,7 +57,7 @@ def tally(rep, cases, vds, keyfilter=None):
         firsts = {}
         for key, w, _ in rep.viol:
             firsts.setdefault(key, w)
-        with open(os.path.join(common.VERIF, ".work", rep.pid + "_violations.json"), "w") as f:
+        with open(os.path.join(common.VERIF, ".work", rep.pid + os.environ.get("VERIF_WORKTAG", "") + "_violations.json"), "w") as f:
             json.dump(firsts, f, indent=1, default=str)
     except OSError:
         pass
